@@ -28,9 +28,13 @@ type uiSession struct {
 	Prefix []string
 	Line   lineTemplate
 	Height int // terminal height
+	Then   []string // concrete lines typed after the template line
 }
 
 func (s uiSession) String() string {
+	if len(s.Then) > 0 {
+		return fmt.Sprintf("%s h=%d %q then %q then %q", uiPrograms()[s.Prog].Name, s.Height, s.Prefix, s.Line.String(), s.Then)
+	}
 	return fmt.Sprintf("%s h=%d %q then %q", uiPrograms()[s.Prog].Name, s.Height, s.Prefix, s.Line.String())
 }
 
@@ -73,7 +77,7 @@ func uiSessions(tier string) []uiSession {
 		}
 	}
 	for _, cx := range ctxs {
-		add := func(t lineTemplate) { out = append(out, uiSession{cx.prog, cx.prefix, t, cx.height}) }
+		add := func(t lineTemplate) { out = append(out, uiSession{cx.prog, cx.prefix, t, cx.height, nil}) }
 		for n := 0; n <= maxSym; n++ {
 			add(lineTemplate{sym(n)})
 		}
@@ -86,6 +90,28 @@ func uiSessions(tier string) []uiSession {
 				add(lineTemplate{k, "  ", sym(1), " ", sym(1), " ", sym(1)})
 				add(lineTemplate{k, " 9223372036854775807"})
 				add(lineTemplate{k, " 1 9223372036854775808"})
+			}
+		}
+	}
+	// a line that moves a cursor to an arbitrary accepted place, then commands
+	// that use the cursor
+	type follow struct {
+		prog   int
+		prefix []string
+		moves  []string
+		then   [][]string
+		height int
+	}
+	fl := []follow{
+		{1, nil, []string{"goto", "down", "up"}, [][]string{{"e"}, {"find x"}, {"d 1"}, {"u 1"}, {"m"}, {"b"}, {"al"}}, 24},
+		{2, []string{"d 2"}, []string{"goto", "down", "up"}, [][]string{{"e", "s"}, {"find x"}, {"d 1"}, {"u 1"}}, 9},
+		{0, []string{"d 1", "e", "m memory"}, []string{"goto", "down", "up", "address"}, [][]string{{"d 1"}, {"u 1"}, {"a 0"}}, 24},
+		{3, []string{"d 2", "e", "s", "9", "4096", "m memory"}, []string{"goto", "down", "address"}, [][]string{{"d 1"}, {"u 1"}}, 10},
+	}
+	for _, f := range fl {
+		for _, mv := range f.moves {
+			for _, th := range f.then {
+				out = append(out, uiSession{f.prog, f.prefix, lineTemplate{mv, " ", sym(2)}, f.height, th})
 			}
 		}
 	}
@@ -140,7 +166,7 @@ func uiSessionUnits(c *Ctx, contract string, sessions []uiSession, mk func(us *U
 		s := sessions[us.Enum["s"]]
 		us.InstanceName = fmt.Sprintf("s=%d %s", us.Enum["s"], s)
 		us.Bounded = "console sessions of the corpus (line templates with arbitrary bytes)"
-		us.MaxPaths = 400000
+		us.MaxPaths = 5000
 		world := &uiWorld{}
 		us.Prepare = func(p *sx.Path) {
 			*world = *c.buildUIWorld(p, uiPrograms()[s.Prog], parser)
@@ -178,13 +204,20 @@ func uiSessionUnits(c *Ctx, contract string, sessions []uiSession, mk func(us *U
 			p.NoSafety = true
 		}
 		us.CallHook = c.uiHook
+		// a session path executes some 10^5 instructions; a command that
+		// does not come back (an endless loop) is reported, not followed
+		us.Hooks = func(m *sx.Machine) { m.MaxSteps = 3_000_000 }
 		us.Inputs = func(p *sx.Path, ev *spec.Eval, fn *ssa.Function) map[string]sx.Val {
 			c.installUIBuiltins(ev, world)
 			c.installStrBuiltins(ev)
 			for _, o := range world.prefixPanic {
 				p.Assert(o.Name, o.Kind, smt.False, o.Pos, o.Note+" (while the session prefix is typed)")
 			}
-			p.Ghost["stdin"] = []sx.Str{templateStr(s.Line, "line")}
+			script := []sx.Str{templateStr(s.Line, "line")}
+			for _, l := range s.Then {
+				script = append(script, sx.Str{S: l})
+			}
+			p.Ghost["stdin"] = script
 			p.Ghost["stdin.stop"] = true
 			p.Ghost["term.height"] = smt.BVU(uint64(s.Height), 64)
 			env := c.leafEnv(p)
@@ -248,7 +281,24 @@ func (c *Ctx) uiHook(p *sx.Path, fn *ssa.Function, args []sx.Val, site ssa.Instr
 		return nil, false
 	}
 	if p.Decide(smt.BVSlt(v, smt.BVU(0, 64))) || p.Decide(smt.BVSle(smt.BVI(max, 64), v)) {
-		return nil, false // out of range: Set rejects it, whatever the value
+		// out of range: Set is expected to reject it, whatever the value.
+		// Should it store the value all the same, the sessions that follow
+		// run on each value it can have (a cursor without a bound is
+		// reported, not followed)
+		r := p.Call(fn, []sx.Val{recv, v}, nil, nil)
+		cs := p.Load(recv, "cursor").(*sx.Struct)
+		vi := fieldIdx(curT, "value")
+		if cur, isT := cs.F[vi].(*smt.Term); isT && !cur.IsConst() {
+			k, ok := p.TryConcretize(cur, 8192)
+			if !ok {
+				panic(sx.Unsupported{Msg: "cursor.Set stored a value without a bound"})
+			}
+			ns := *cs
+			ns.F = append([]sx.Val{}, cs.F...)
+			ns.F[vi] = k
+			p.StoreTo(recv, &ns, "cursor")
+		}
+		return r, true
 	}
 	for k := int64(0); k < max; k++ {
 		if k == max-1 || p.Decide(smt.Eq(v, smt.BVI(k, 64))) {
